@@ -1211,6 +1211,11 @@ impl<'a, S: Suite> W<'a, S> {
                 ),
             );
         }
+        // Legal but unusual calls on the same public data (tape-chosen, rare): empty and one-element
+        // lists, no shares, no public keys, an empty message. Each has a forced answer and must not panic.
+        if self.t.chance(1, 10) {
+            self.degenerate_calls(&coord, &share_vals, &list, &pks, &msg);
+        }
         match r {
             Some(sig) => {
                 let se = S::sig_encode(sig);
@@ -1244,6 +1249,64 @@ impl<'a, S: Suite> W<'a, S> {
                 self.send(Kind::Final, COORD, RELY, s, att, se, msg);
             }
             None => self.fail_attempt(s, att),
+        }
+    }
+
+    fn degenerate_calls(&mut self, coord: &S::Coord, shares: &[S::SigShare], list: &[S::Comm], pks: &[S::Spk], msg: &[u8]) {
+        let eng = self.eng.clone();
+        let gpk = self.gpk;
+        self.out.probe("probe.frost.degenerate_calls_exercised");
+        let empty_l: Vec<S::Comm> = Vec::new();
+        let empty_s: Vec<S::SigShare> = Vec::new();
+        let empty_p: Vec<S::Spk> = Vec::new();
+        let one: Vec<S::Comm> = list.iter().cloned().take(1).collect();
+        let c = *coord;
+        // (label, expected-None?) -- every one of these must be None: fewer than t >= 2 signers can never
+        // produce a signature that verifies under the group key.
+        let r1 = guard_c19(self.out, &eng, "call.frost.assemble_signature", || "empty list".into(), || S::coord_assemble(c, shares, &empty_l, pks, msg));
+        let r2 = guard_c19(self.out, &eng, "call.frost.assemble_signature", || "one-element list".into(), || S::coord_assemble(c, shares, &one, pks, msg));
+        let r3 = guard_c19(self.out, &eng, "call.frost.assemble_signature", || "no shares".into(), || S::coord_assemble(c, &empty_s, list, pks, msg));
+        let r4 = guard_c19(self.out, &eng, "call.frost.assemble_signature", || "no public keys".into(), || S::coord_assemble(c, shares, list, &empty_p, msg));
+        for (i, r) in [r1, r2, r3, r4].iter().enumerate() {
+            if let Some(Some(sig)) = r {
+                let se = S::sig_encode(*sig);
+                self.viol(
+                    "reject:assemble_signature:degenerate",
+                    format!("assemble_signature returned a signature for degenerate arguments (case {}: 0=empty list, 1=one-element list, 2=no shares, 3=no public keys): {}", i, crate::util::hex(&se)),
+                );
+            }
+        }
+        let r5 = guard_c19(self.out, &eng, "call.frost.choose", || "no commitments".into(), || S::coord_choose(c, &empty_l));
+        if let Some(Some(_)) = r5 {
+            self.viol("model:choose", "choose() returned a list from zero commitments".to_string());
+        }
+        if let (Some(ss), Some(pk)) = (shares.first(), pks.first()) {
+            let r6 = guard_c19(self.out, &eng, "call.frost.verify_signature_share", || "empty list".into(), || S::spk_verify_share(*pk, *ss, &empty_l, gpk, msg));
+            if r6 == Some(true) {
+                self.viol("reject:verify_signature_share", "verify_signature_share accepted a share against an empty commitment list".to_string());
+            }
+            // the same share against the same list but another message: true only if that signer really
+            // signed exactly (list, that message) with this share (ground truth), which a corrupted SignReq
+            // can make happen
+            let other: Vec<u8> = if msg.is_empty() { vec![0u8] } else { Vec::new() };
+            let list_enc = S::comm_encode_list(list);
+            let se = S::sigshare_encode(*ss);
+            let wf = list_wellformed::<S>(&list_enc);
+            for p in pks.iter() {
+                let pe = S::spk_encode(*p);
+                let same_ident = pe[..S::NS] == se[..S::NS];
+                let auth = self.authentic.get(&(se[..S::NS].to_vec(), list_enc.clone(), other.clone())).map(|x| x[..] == se[..]).unwrap_or(false);
+                let expect = wf && same_ident && auth;
+                let r7 = guard_c19(self.out, &eng, "call.frost.verify_signature_share", || "other message".into(), || S::spk_verify_share(*p, *ss, list, gpk, &other));
+                if let Some(r7) = r7 {
+                    if r7 != expect {
+                        self.viol(
+                            if expect { "complete:verify_signature_share" } else { "reject:verify_signature_share" },
+                            format!("verify_signature_share for another message returned {} but ground truth says {}", r7, expect),
+                        );
+                    }
+                }
+            }
         }
     }
 
@@ -1475,19 +1538,28 @@ pub fn run<S: Suite>(t: &mut Tape, cfg: &Cfg, out: &mut RunOut) {
     let eng = format!("frost/{}", S::NAME);
     let mut rng = SimRng::new(t.seed64());
     // ---- world size
-    let (tmin, n) = if cfg.big_n {
+    let huge = cfg.tier == Tier::Thorough && cfg.big_n && t.chance(1, 60);
+    let (tmin, n) = if huge {
+        // the documented maximum group size (and just below it)
+        let n = [65535usize, 65535, 65534, 40000][t.usize(4)];
+        (2 + t.usize(2), n)
+    } else if cfg.big_n {
         // identifiers cross a byte boundary
         let n = 255 + t.usize(if cfg.tier == Tier::Thorough { 1800 } else { 50 });
         let tm = 2 + t.usize(if cfg.tier == Tier::Thorough { 10 } else { 4 });
         (tm, n)
     } else {
-        let tmax = if cfg.tier == Tier::Thorough { 9 } else { 5 };
-        let tm = 2 + t.usize(tmax - 1);
+        let tmax = if cfg.tier == Tier::Thorough { 24 } else { 5 };
+        let tm = if cfg.tier == Tier::Thorough && t.chance(1, 4) { 2 + t.usize(tmax - 1) } else { 2 + t.usize(6.min(tmax - 1)) };
+        let tm = if cfg.tier == Tier::Thorough { tm } else { tm.min(5) };
         let n = tm + t.usize(if cfg.tier == Tier::Thorough { 10 } else { 6 });
         (tm, n)
     };
+    if huge {
+        out.probe("probe.frost.group_size_at_documented_maximum");
+    }
     // active signers: at most 10 nodes, with identifiers spread over [1, n]
-    let max_active = if cfg.tier == Tier::Thorough { 12 } else { 8 };
+    let max_active = if cfg.tier == Tier::Thorough { 30 } else { 8 };
     let nact = n.min(tmin + t.usize((max_active - tmin).max(0) + 1)).max(tmin);
     let mut idents: BTreeSet<u64> = BTreeSet::new();
     if n <= nact {
